@@ -123,14 +123,18 @@ class Ocp(Stage):
                 raise
     
     def _untranscribe(self,**kwargs):
-        if self.is_transcribed:
-            self._transcribed_placeholders.clear()
-            self._untranscribe_recurse(phase=0)
-            self._placeholders_untranscribe_recurse(1)
-            self._untranscribe_recurse(phase=1)
-            self._original._set_transcribed(False)
+        # Unconditionally: after an edit the OCP no longer counts as transcribed,
+        # but the leftovers of the outdated transcription (Opti) are still around
+        self._transcribed_placeholders.clear()
+        self._untranscribe_recurse(phase=0)
+        self._placeholders_untranscribe_recurse(1)
+        self._untranscribe_recurse(phase=1)
+        self._original._set_transcribed(False)
 
-            self._untranscribe_recurse(phase=2)
+        self._untranscribe_recurse(phase=2)
+        # The transcribed copy may still refer to an earlier method object (and its Opti) after ocp.method(...)
+        for s in self._original.iter_stages(include_self=True):
+            s._var_augmented = None
 
     @property
     @transcribed
